@@ -87,7 +87,7 @@ def cases(tier, seed, info):
                 items.append(rng.choice(alphabet))
             else:
                 items.append(dict(cache='other', mod=rng.choice(['damaged', 'e500', 'm2c00', 'plain', 'badheader',
-                                                                 'bmcproc', 'lp', 'hidden']), beh='-',
+                                                                 'bmcproc', 'lp', 'hidden', 'regmsg', 'regmsg']), beh='-',
                                   plugins=rng.random() < .7))
         out.append(dict(kind='history', origin='random', seed=seed * 17 + k + 777, items=items))
     info['random_histories'] = m
@@ -143,6 +143,19 @@ def realise(rng, item, serial):
             s = genpel.gen_src(rng, 'PS', ncallouts=1, shapes=[dict(fru='m', pce=None, mru=None, loc=0)], kind='BD')
             s['callouts']['list'][0]['fru']['pn'] = encode.text(rng.choice(['BMC0001', 'BMC0004', 'BMC9999']), 8)
             secs = [s]
+        elif mod == 'regmsg':
+            # a reference code the message registry knows, its message filled from THIS log's words
+            kind, ref = rng.choice([('BD', 'BD8D2030'), ('BD', 'BD8D2030'), ('11', '110000AC'), ('BC', 'BC8A8A01'),
+                                    ('BD', 'BD702031')])
+            creator = rng.choice(['O', 'B'])
+            s = genpel.gen_src(rng, 'PS', ncallouts=-1, kind=kind)
+            s['ascii'] = encode.text(ref, 32, 0x20)
+            s['wc'] = 9
+            secs = [s]
+            if rng.random() < .4:
+                s2 = genpel.gen_src(rng, 'SS', ncallouts=-1, kind=kind)
+                s2['ascii'], s2['wc'] = encode.text(ref, 32, 0x20), 9
+                secs.append(s2)
         elif mod == 'lp':
             secs = [genpel.gen_lp(rng, ntargets=rng.randrange(1, 6), namelen=8), genpel.gen_src(rng, 'PS')]
         else:
@@ -202,6 +215,7 @@ def cache_projection():
 def _history(case):
     rng = random.Random(case['seed'])
     seams.install_fixture_plugins()
+    seams.install_registry()
     seams.clear_plugin_caches(unload=True)
     pels = []
     for k, it in enumerate(case['items']):
@@ -240,11 +254,12 @@ def _dir(case):
     shutil.rmtree(d, ignore_errors=True)
     os.makedirs(d)
     seams.install_fixture_plugins()
+    seams.install_registry()
     seams.clear_plugin_caches(unload=True)
     alphabet = [dict(cache=c, mod=mm, beh=b, plugins=True) for c in ('ud', 'src', 'co', 'osrc') for mm in ('m1', 'm2') for b in BEHSEL]
     files = []
     for k in range(case['n']):
-        it = rng.choice(alphabet) if k % 2 else dict(cache='other', mod=rng.choice(['e500', 'plain', 'lp']), beh='-')
+        it = rng.choice(alphabet) if k % 2 else dict(cache='other', mod=rng.choice(['e500', 'plain', 'lp', 'regmsg']), beh='-')
         data, sent = realise(rng, it, k)
         eid = sent[0]
         name = '%02d_%s' % (k, eid)
